@@ -35,15 +35,22 @@ ReOp(t, s) == [op |-> "append", to |-> t, s |-> s, k |-> heap[s].k, id |-> heap[
 \* elements are appended more often than the other kinds
 KindBag == SelectSeq(<<"node", "node", "node", "way", "way", "way", "relation", "relation", "changeset", "note", "user", "bounds">>,
                      LAMBDA k : k \in Kinds)
-\* one random call; every random choice is bound once by a singleton quantifier
+\* one random call; every random choice is bound once by a singleton quantifier.  Half of the new elements are another
+\* version of the feature appended last (histories with several versions, appended in any order), half of the sorts sort
+\* the kind appended last
 Walk ==
-  \E c \in {RandomElement(1 .. 100)} : \E t \in {RandomElement(Targets)} : \E k \in {KindBag[RandomElement(1 .. Len(KindBag))]} :
-  \E i \in {RandomElement(Ids)} : \E v \in {RandomElement(Vers)} : \E b \in {RandomElement(VisVals)} :
-  \E s \in {RandomElement(1 .. Len(heap) + 1)} : \E ek \in {RandomElement(ElemKindSet \cap Kinds)} :
+  \E c \in {RandomElement(1 .. 100)} : \E t \in {RandomElement(Targets)} : \E k0 \in {KindBag[RandomElement(1 .. Len(KindBag))]} :
+  \E i0 \in {RandomElement(Ids)} : \E v \in {RandomElement(Vers)} : \E b \in {RandomElement(VisVals)} :
+  \E s \in {RandomElement(1 .. Len(heap) + 1)} : \E ek0 \in {RandomElement(ElemKindSet \cap Kinds)} :
+  \E again \in {RandomElement(BOOLEAN)} :
   \E tk \in {RandomElement(TagKeys)} : \E tv \in {RandomElement(TagVals)} :
   \E rk \in {RandomElement(RefKinds)} : \E rv \in {RandomElement(RefVers)} :
   \E la \in {RandomElement(Coords)} : \E lo \in {RandomElement(Coords)} :
-    LET new == NewOp(t, k, i, v, b)
+    LET lastElem == heap # << >> /\ IsElem(heap[Len(heap)].k) /\ heap[Len(heap)].k \in Kinds
+        k  == IF again /\ lastElem THEN heap[Len(heap)].k ELSE k0
+        i  == IF again /\ lastElem THEN heap[Len(heap)].id ELSE i0
+        ek == IF again /\ lastElem THEN heap[Len(heap)].k ELSE ek0
+        new == NewOp(t, k, i, v, b)
         o == IF c <= W[1] THEN new
              ELSE IF c <= W[2] THEN (IF s <= Len(heap) THEN ReOp(t, s) ELSE new)
              ELSE IF c <= W[3] THEN (IF Cont(t).nil THEN new ELSE [op |-> "sort", to |-> t, k |-> ek])
@@ -51,7 +58,7 @@ Walk ==
              ELSE IF c <= W[5] THEN [op |-> "chgds"]
              ELSE IF c <= W[6] THEN [op |-> "tagadd", key |-> tk, val |-> tv]
              ELSE IF c <= W[7] THEN [op |-> "tagsort"]
-             ELSE [op |-> "refadd", k |-> rk, id |-> i, v |-> rv, lat |-> la, lon |-> lo]
+             ELSE [op |-> "refadd", k |-> rk, id |-> i0, v |-> rv, lat |-> la, lon |-> lo]
     IN Do(o) /\ ops' = Append(ops, o)
 
 GInit == Init /\ ops = << >> /\ plan \in (IF Mode = "all" THEN {0} ELSE 1 .. Len(PlanBag))
